@@ -188,7 +188,7 @@ Raise ==
 
 (* an error and its propagation as one step (how an observer of the call sees it) *)
 FailAndRaise(e) ==
-    /\ pc \notin {"returned", "raised", "metrics"}
+    /\ pc \notin {"returned", "raised"}            \* (the quality measures computed after the loop can raise too)
     /\ err' = e /\ pc' = "raised"
     /\ workers' = IF FixedCode THEN {} ELSE workers
     /\ UNCHANGED <<cfg, round, Model, prev, task, gathered, result, faults, exit>>
